@@ -24,6 +24,11 @@ impl SharedGroup {
         self.clients.is_empty()
     }
 
+    #[cfg(feature = "verif-hooks")]
+    pub fn verif_members(&self) -> (Vec<String>, usize) {
+        (self.clients.clone(), self.current_client_index)
+    }
+
     pub fn current_client(&self) -> Option<&String> {
         self.clients.get(self.current_client_index)
     }
